@@ -73,7 +73,8 @@ def rx_conformance():
         # look-aheads are letters in rx: restrict the differential test to look-ahead-free regexes
         if "(?!" in text:
             continue
-        L = Lang(rx.strip_groups(ast))
+        # bounded skips {0,N} with N >= 256 are unrolled as * : identical on the test words (all shorter than 256)
+        L = Lang(rx.tloop(rx.strip_groups(ast)))
         comp = real.compile(text)
         for _ in range(300):
             k = rnd.choice([0, 5, 9, 12, 15, 20, 30])
